@@ -33,125 +33,65 @@ void dtw_expand_wps_slice{{suffix}}(seq_t *wps, seq_t *full,
                     DTWSettings *settings) {
     DTWWps p = dtw_wps_parts(l1, l2, settings);
 
-    idx_t ri, ci, min_ci, max_ci, wpsi, wpsi_start;
-    idx_t rbs = 0;
-    if (rb > 0) { rbs = rb - 1; }
-    idx_t res = 0;
-    if (re > 0) { res = re - 1; }
-    idx_t cbs = 0;
-    if (cb > 0) { cbs = cb - 1; }
-    idx_t ces = 0;
-    if (ce > 0) { ces = ce - 1; }
+    idx_t r, c, ri, ci, min_ci, max_ci, wpsi_start, ci_b, ci_e;
     idx_t fwidth = ce - cb;
+    seq_t *frow;
+    seq_t *wrow;
 
     for (idx_t i=0; i<(re-rb)*(ce-cb); i++) {
         full[i] = {{infinity}};
     }
 
-    // Top row: ri = -1
-    if (rb == 0 && cb == 0) {
-        full[0] = wps[0];
-    }
-    if (rb == 0) {
-        wpsi = 1 + cbs;
-        for (ci=cbs; ci<MIN3(ces, p.width - 1, l2); ci++) {
-            full[wpsi-cbs] = wps[wpsi];
-            wpsi++;
+    for (r=rb; r<re; r++) {
+        frow = full + (r - rb)*fwidth;  // Row r of the matrix in the slice
+        wrow = wps + r*p.width;         // Row r of the matrix in the compact datastructure
+        if (r == 0) {
+            // Top row: stored as is (as far as the compact row reaches)
+            for (c=cb; c<MIN3(ce, p.width, l2 + 1); c++) {
+                frow[c - cb] = wrow[c];
+            }
+            continue;
         }
-    }
-
-    // A. Rows: 0 <= ri < min(overlap_left_ri, overlap_right_ri)
-    if (rbs < p.ri1) {
-        min_ci = 0;
-        max_ci = p.window + p.ldiffc; // ri < overlap_right_i
-        max_ci += rbs;
-        for (ri=rbs; ri<MIN(res, p.ri1); ri++) {
-            if (cbs == 0) {
-                full[fwidth*(ri + 1)] = wps[p.width*(ri + 1)];
-            }
-            if (cbs <= min_ci) {
-                wpsi = 1;
-            } else {
-                wpsi = 1 + (cbs - min_ci);
-            }
-            for (ci=MAX(cbs, min_ci); ci<MIN(ces, max_ci); ci++) {
-                full[(ri+1-rb)*fwidth + ci + 1 - cb] = wps[(ri+1)*p.width + wpsi];
-                wpsi++;
-            }
-            max_ci++;
-        }
-    }
-
-    // B. Rows: min(overlap_left_ri, overlap_right_ri) <= ri < overlap_left_ri
-    min_ci = cbs;
-    max_ci = MIN(ces, l2); // ri >= overlap_right_i
-    if (rbs < p.ri2) {
-        for (ri=MAX(rbs, p.ri1); ri<MIN(res, p.ri2); ri++) {
-            if (cbs == 0) {
-                full[fwidth*(ri + 1)] = wps[p.width*(ri + 1)];
-            }
-            if (cbs <= min_ci) {
-                wpsi = 1;
-            } else {
-                wpsi = 1 + (cbs - min_ci);
-            }
-            for (ci=MAX(cbs, min_ci); ci<MIN(ces, max_ci); ci++) {
-                full[(ri+1-rb)*fwidth + ci + 1 - cb] = wps[(ri+1)*p.width + wpsi];
-                wpsi++;
-            }
-        }
-    }
-
-    // C. Rows: overlap_left_ri <= ri < MAX(parts.overlap_left_ri, parts.overlap_right_ri)
-    min_ci = 1;
-    max_ci = 1 + 2 * p.window - 1 + p.ldiff;
-    if (rbs < p.ri3) {
-        // if (rbs > p.ri2) {
-        //     min_ci += rbs - p.ri2;
-        //     max_ci += rbs - p.ri2;
-        // }
-        for (ri=MAX(rbs, p.ri2); ri<MIN(res, p.ri3); ri++) {
-            if (cbs == 0) {
-                full[(ri+1)*fwidth + min_ci] = wps[(ri+1)*p.width + 0];
-            }
-            if (cbs <= min_ci) {
-                wpsi = 1;
-            } else {
-                wpsi = 1 + (cbs - min_ci);
-            }
-            for (ci=MAX(cbs, min_ci); ci<MIN(ces, max_ci); ci++) {
-                full[(ri+1-rb)*fwidth + ci + 1 - cb] = wps[(ri+1)*p.width + wpsi];
-                wpsi++;
-            }
-            min_ci++;
-            max_ci++;
-        }
-    }
-
-    // D. Rows: MAX(overlap_left_ri, overlap_right_ri) < ri <= l1
-    min_ci = p.ri3 + 1 - p.window - p.ldiffr;
-    wpsi_start = 2;
-    if (p.ri2 == p.ri3) {
-        // C is skipped
-        wpsi_start = min_ci + 1;
-    } else {
-        min_ci = 1 + p.ri3 - p.ri2;
-    }
-    // if (rbs > p.ri3) {
-    //     min_ci += rbs - p.ri3;
-    //     wpsi_start += rbs - p.ri3;
-    // }
-    for (ri=MAX(rbs, p.ri3); ri<MIN(res, l1); ri++) {
-        if (cbs <= min_ci) {
-            wpsi = wpsi_start;
+        ri = r - 1;  // Index in series 1
+        // Columns [min_ci, max_ci[ of series 2 are stored from position wpsi_start on
+        if (ri < p.ri1) {
+            // A. [0 0 x x x]
+            min_ci = 0;
+            max_ci = p.window + p.ldiffc + ri;
+            wpsi_start = 1;
+        } else if (ri < p.ri2) {
+            // B. [0 0 0 0 0]
+            min_ci = 0;
+            max_ci = l2;
+            wpsi_start = 1;
+        } else if (ri < p.ri3) {
+            // C. [x 0 0 x x]
+            min_ci = 1 + (ri - p.ri2);
+            max_ci = 2 * p.window + p.ldiff + (ri - p.ri2);
+            wpsi_start = 1;
         } else {
-            wpsi = wpsi_start + (cbs - min_ci);
+            // D. [x x 0 0 0]
+            if (p.ri2 == p.ri3) {
+                // C is skipped
+                min_ci = MAX(0, p.ri3 + 1 - p.window - p.ldiffr);
+                wpsi_start = min_ci + 1;
+            } else {
+                min_ci = 1 + p.ri3 - p.ri2;
+                wpsi_start = 2;
+            }
+            min_ci += ri - p.ri3;
+            wpsi_start += ri - p.ri3;
+            max_ci = l2;
         }
-        for (ci=MAX(cbs, min_ci); ci<MIN(ces, l2); ci++) {
-            full[(ri+1-rb)*fwidth + ci + 1 - cb] = wps[(ri+1)*p.width + wpsi];
-            wpsi++;
+        // First column (only stored for rows where the window starts at the first column)
+        if (cb == 0 && ri < p.ri2) {
+            frow[0] = wrow[0];
         }
-        min_ci++;
-        wpsi_start++;
+        // Column c of the matrix is index c-1 in series 2
+        ci_b = MAX(min_ci, cb - 1);
+        ci_e = MIN(max_ci, ce - 1);
+        for (ci=ci_b; ci<ci_e; ci++) {
+            frow[ci + 1 - cb] = wrow[wpsi_start + (ci - min_ci)];
+        }
     }
 }
